@@ -29,6 +29,9 @@ var c02Hashes = []hashChoice{
 	{"sha3-256", multihash.SHA3_256, -1},
 	{"blake2b-256", multihash.BLAKE2B_MIN + 31, -1},
 	{"sha2-256-trunc20", multihash.SHA2_256, 20},
+	// the identity function: the digest is the block itself, so the CID of
+	// each advertisement inlines its predecessor (chains are kept short)
+	{"identity", multihash.IDENTITY, -1},
 }
 
 func (h hashChoice) proto() *cidlink.LinkPrototype {
@@ -89,6 +92,9 @@ func c02Plan(r *simkit.Run, c Cfg, w *World) (c04Cfg, []faultPlan) {
 			nAds: tp.Range(3, 10, "nAds"), twoLive: tp.Chance(1, 4, "twoLive"), proto: h.proto(), hashName: h.name}
 		if tp.Chance(1, 2, "seg") {
 			cfg.seg = int64(tp.Range(1, 4, "segV"))
+		}
+		if h.mhType == multihash.IDENTITY && cfg.nAds > 5 {
+			cfg.nAds = 5
 		}
 		cfg.preSynced = tp.Choose(cfg.nAds, "preSynced")
 		np := 1 + tp.Choose(2, "nfaults")
